@@ -254,6 +254,11 @@ func propC03(c *Ctx) {
 		c.Violation("R3.3", "delete-statements", m.del.Pos(), fmt.Sprintf("expected a cursor delete and a destination delete, found %d", nDel))
 	}
 
+	c.Rule("R3.6", "a segment rejected by validate() (e.g. a mixed old/new chain) is never cached", 3)
+	checkCacheStoresOnlySuccess(c, "R3.6")
+	c.Rule("R3.5", "unwinding removes the rows of every block above the position that remains (positions are per step, rows per block)", 1)
+	checkUnwindCoversStep(c, "R3.5")
+
 	// ---- R3.4 ---------------------------------------------------------
 	c.Rule("R3.4", "every successful return of the block/header fetchers carries validate()'s verdict; validate checks emptiness, first/last number and parent linkage of every adjacent pair", 6)
 	checkFetchersValidate(c, "R3.4")
